@@ -1165,8 +1165,8 @@ func TestVerif_C20T(t *testing.T) {
 		} else {
 			select {
 			case <-cb.done:
-			case <-time.After(20 * time.Second):
-				c.Oracle = append(c.Oracle, fmt.Sprintf("no-strand: only %d of %d messages reached OnData within 20 s although nothing more is in flight", cb.next, c.N))
+			case <-time.After(8 * time.Second):
+				c.Oracle = append(c.Oracle, fmt.Sprintf("no-strand: only %d of %d messages reached OnData within 8 s although nothing more is in flight", cb.next, c.N))
 			}
 		}
 		c.Got, c.Calls = cb.next, cb.calls
@@ -1180,6 +1180,9 @@ func TestVerif_C20T(t *testing.T) {
 		client.Close()
 		server.Close()
 		o.emit(c)
+		if len(c.Oracle) > 0 {
+			break // one failing round is a concrete input; more of them only cost time
+		}
 	}
 }
 
